@@ -10,7 +10,7 @@ import "fmt"
 type Pool struct {
 	New   func() any
 	items []any
-	in    map[any]bool
+	owner []*G // who released items[i]
 	reg   bool
 	Name  string
 	Gets  int
@@ -19,11 +19,21 @@ type Pool struct {
 
 var allPools []*Pool
 
+// PoolPerGoroutine selects the reuse policy. false: one LIFO list per pool, the
+// last object released is the next one handed out whoever asks (maximal reuse:
+// a stale reference meets its new owner as soon as possible; the Put-to-Get
+// edge sync.Pool guarantees is given to the race detector). true: a goroutine
+// only gets back objects it released itself and otherwise a new one, as with
+// sync.Pool's per-P caches on a busy machine: no edge passes through the pool,
+// so the detector is not blinded by the chains a LIFO list creates between
+// every pair of goroutines that share a pool. C19 explores under both.
+var PoolPerGoroutine bool
+
 //go:norace
 func resetPools() {
 	for _, p := range allPools {
 		p.items = nil
-		p.in = nil
+		p.owner = nil
 		p.Gets, p.Puts = 0, 0
 	}
 }
@@ -40,12 +50,29 @@ func (p *Pool) register() {
 func (p *Pool) Get() any {
 	p.register()
 	p.Gets++
-	if n := len(p.items); n > 0 {
+	if PoolPerGoroutine {
+		// only take back what this goroutine released itself: no object, and so no
+		// happens-before edge, passes from one goroutine to another through the pool
+		me := cur()
+		for i := len(p.items) - 1; i >= 0; i-- {
+			if p.owner[i] == me {
+				x := p.items[i]
+				// element by element: copy() and append() report to the race detector from inside the runtime
+				for j := i; j+1 < len(p.items); j++ {
+					p.items[j], p.owner[j] = p.items[j+1], p.owner[j+1]
+				}
+				n := len(p.items) - 1
+				p.items[n], p.owner[n] = nil, nil
+				p.items, p.owner = p.items[:n], p.owner[:n]
+				return x
+			}
+		}
+	} else if n := len(p.items); n > 0 {
 		x := p.items[n-1]
 		p.items[n-1] = nil
 		p.items = p.items[:n-1]
-		delete(p.in, x)
-		raceAcquire(p)
+		p.owner = p.owner[:n-1]
+		raceAcquire(poolRaceAddr(x))
 		return x
 	}
 	if p.New != nil {
@@ -68,19 +95,29 @@ func (p *Pool) Put(x any) {
 		p.Name = fmt.Sprintf("%T", x)
 	}
 	p.Puts++
-	if p.in == nil {
-		p.in = map[any]bool{}
-	}
-	if p.in[x] {
+	if p.has(x) {
 		Event("pool: double release of %T (pool %s) at %s", x, p.Name, callers())
 		return
 	}
 	if who, ok := InUse(x); ok {
 		Event("pool: %T released while %s is still using it at %s", x, who, callers())
 	}
-	p.in[x] = true
-	raceRelease(p)
+	raceReleaseMerge(poolRaceAddr(x))
 	p.items = append(p.items, x)
+	p.owner = append(p.owner, cur())
+}
+
+// has reports whether x is in the free list (a scan: the lists are short, and a
+// runtime map would be visible to the race detector).
+//
+//go:norace
+func (p *Pool) has(x any) bool {
+	for _, y := range p.items {
+		if y == x {
+			return true
+		}
+	}
+	return false
 }
 
 // Outstanding is Gets minus Puts in this execution (objects currently owned by the program).
@@ -96,15 +133,33 @@ func Pools() []*Pool { return allPools }
 //go:norace
 func callers() string {
 	s := ""
-	for i := 3; i < 7; i++ {
+	n := 0
+	for i := 2; i < 12 && n < 4; i++ {
 		c := caller(i)
 		if c == "?" {
 			break
+		}
+		if len(c) >= 8 && (c[:8] == "vsync.go" || c[:7] == "pool.go") {
+			continue // the shim's own frames
 		}
 		if s != "" {
 			s += "<"
 		}
 		s += c
+		n++
 	}
-	return fmt.Sprint(s)
+	return s
+}
+
+// poolRaceAddr is the synchronisation address for object x, as in sync.Pool:
+// a Put of x happens before the Get that returns x, and nothing else. Keying
+// the edge on the pool instead would order every user of a busy pool after
+// every other one and hide real races from the detector.
+var poolRaceHash [1 << 16]uint64 // sync.Pool uses 128; collisions there only cost precision, here they would make detection depend on addresses
+
+//go:norace
+func poolRaceAddr(x any) *uint64 {
+	ptr := uintptr(addrOfAny(x))
+	h := uint32((uint64(ptr>>3) * 0x9E3779B97F4A7C15) >> 40)
+	return &poolRaceHash[h%uint32(len(poolRaceHash))]
 }
